@@ -720,6 +720,10 @@ static int vnadata_save_common(vnadata_t *vdp, FILE *fp, const char *filename,
     const double complex *z0_vector = NULL;
     double z0_touchstone = 50.0;
     vnadata_t *conversions[VPT_NTYPES];
+    vnadata_internal_t *vdip0 = NULL;	/* the object being saved */
+    vnadata_filetype_t filetype0 = VNADATA_FILETYPE_AUTO;
+    char *format0 = NULL;		/* its format on entry */
+    bool format_changed = false;	/* format filled in for this save */
 
     /*
      * Validate pointer.
@@ -734,6 +738,24 @@ static int vnadata_save_common(vnadata_t *vdp, FILE *fp, const char *filename,
 	return -1;
     }
     aprecision = MAX(vdip->vdi_dprecision, 3);
+
+    /*
+     * Remember the file type and format the caller has set.  Below, the
+     * file type found from the filename, the default format and the
+     * parameter type of "ri", "ma" and "dB" are filled in for this
+     * save only: they're put back at out, so that neither a check nor
+     * a save changes what a later save writes.
+     */
+    vdip0 = vdip;
+    filetype0 = vdip->vdi_filetype;
+    if (vdip->vdi_format_string != NULL) {
+	if ((format0 = strdup(vdip->vdi_format_string)) == NULL) {
+	    _vnadata_error(vdip, VNAERR_SYSTEM,
+		    "strdup: %s", strerror(errno));
+	    vdip0 = NULL;
+	    goto out;
+	}
+    }
 
     /*
      * Init conversions to NULL.
@@ -823,6 +845,7 @@ static int vnadata_save_common(vnadata_t *vdp, FILE *fp, const char *filename,
      * If no formats have been given, default to "ri".
      */
     if (vdip->vdi_format_count == 0) {
+	format_changed = true;
 	if (_vnadata_set_simple_format(vdip, type,
 		    VNADATA_FORMAT_REAL_IMAG) == -1) {
 	    goto out;
@@ -1058,6 +1081,7 @@ static int vnadata_save_common(vnadata_t *vdp, FILE *fp, const char *filename,
 	    }
 	}
 	if (changed) {
+	    format_changed = true;
 	    if (_vnadata_update_format_string(vdip) == -1) {
 		goto out;
 	    }
@@ -1549,6 +1573,14 @@ out:
 	vnadata_free(conversions[i]);
 	conversions[i] = NULL;
     }
+    if (vdip0 != NULL) {
+	vdip0->vdi_filetype = filetype0;
+	if (format_changed &&
+		vnadata_set_format(&vdip0->vdi_vd, format0) == -1) {
+	    rc = -1;
+	}
+    }
+    free((void *)format0);
     return rc;
 }
 
